@@ -145,7 +145,7 @@ func (p *Subscribe) UnmarshalBinary(data []byte) error {
 	b.get(&p.packetID)
 	b.getAny(p.propertyMap(true), p.appendUserProperty)
 
-	for {
+	for !b.atEnd() {
 		var f TopicFilter
 		b.get(&f.filter)
 		b.get(&f.options)
